@@ -35,6 +35,9 @@ def obligations(tier):
     obs.append(Ob("C01.val/default_number", "drv", "c_default", {"VF_DKIND": 2, "VF_MAXV": mv[2], "VF_UF": 1}, t, FN_ACT, f"DEFAULT <digits>: any digit string of 1..{mv[2]} digits -> int(text), int uninterpreted"))
     obs.append(Ob("C01.val/size_n", "drv", "c_size", {"VF_SFORM": 0, "VF_MAXV": mv[3], "VF_UF": 1}, t, FN_ACT, f"(n): digit string of 1..{mv[3]} digits"))
     obs.append(Ob("C01.val/size_p_s", "drv", "c_size", {"VF_SFORM": 1, "VF_MAXV": mv[3], "VF_UF": 1}, t, FN_ACT, f"(p, s): digit strings of 1..{mv[3]} digits each"))
+    obs.append(Ob("C01.pipe/default-literal", "pipe", "c_literal", {"VF_PI": 0}, 300 if tier == "quick" else 900,
+                  ["whole pipeline (harness/pipe.py) on CREATE TABLE t (p int, k varchar(20) DEFAULT <literal> NOT NULL, q int)"],
+                  "37 catalogued string literals as the DEFAULT of the middle column (symbolic index): the default comes back verbatim", known="respaced-literal"))
     obs += lex_obs("C01", "c_kw", ["col_later", "col_after_sized", "option_pos", "option_pos2", "after_not", "after_default"], tier, "lex")
     obs += lex_obs("C01", "c_name", ["col_first", "col_later", "col_after_sized", "ref_list_first", "ref_list_later", "default_paren"], tier, "lexname")
     return obs
